@@ -237,6 +237,35 @@ def _worker_init():
     import jax
 
     jax.config.update("jax_enable_x64", True)
+    _start_coverage()
+
+
+_COV = None
+
+
+def _start_coverage():
+    """optional (VERIF_COVERAGE_DIR set): line/branch coverage of /repo/jinns under the correspondence runs,
+    used by tools/coverage_report.py to list the anchored code the generators never reach"""
+    global _COV
+    cov_dir = os.environ.get("VERIF_COVERAGE_DIR")
+    if not cov_dir or _COV is not None:
+        return
+    import coverage
+    from multiprocessing import util as mpu
+
+    os.makedirs(cov_dir, exist_ok=True)
+    _COV = coverage.Coverage(data_file=os.path.join(cov_dir, ".coverage"), data_suffix=True, branch=True,
+                             source=[str(REPO / "jinns")])
+    _COV.start()
+
+    def _save():
+        _COV.stop()
+        _COV.save()
+
+    mpu.Finalize(None, _save, exitpriority=0)
+    import atexit
+
+    atexit.register(lambda: _COV.save())
 
 
 def err_kind(e: BaseException) -> str:
